@@ -143,6 +143,18 @@ func (ms *ModbusServer) VerifSnapshot() (started bool, clients int) {
 	return ms.started, len(ms.tcpClients)
 }
 
+// VerifClientAddrs returns the remote addresses of the registered client connections, in list order.
+func (ms *ModbusServer) VerifClientAddrs() (addrs []string) {
+	ms.lock.Lock()
+	defer ms.lock.Unlock()
+
+	for _, sock := range ms.tcpClients {
+		addrs = append(addrs, sock.RemoteAddr().String())
+	}
+
+	return
+}
+
 // VerifExtractRole runs role extraction on an in-memory certificate.
 func VerifExtractRole(cert *x509.Certificate) (role string) {
 	var ms = &ModbusServer{logger: newLogger("verif", verifQuietLogger)}
